@@ -1144,7 +1144,7 @@ func main() {
 		CheckFn:  "check_case",
 		PerFile:  8,
 	}
-	nhist := 50
+	nhist := 40
 	if *tier == "thorough" {
 		nhist = 1500
 		cw.PerFile = 20
